@@ -116,7 +116,7 @@ def build_set(s, stage_dir, tier, wdir):
     defs = ["-D%s=%s" % kv for kv in params.items()] + ["-D" + d for d in s.get("defines", [])]
     dfcc = s.get("dfcc", s["mode"] in ("U", "L"))
     defs.append("-DVERIF_DFCC" if dfcc else "-DVERIF_FAITHFUL")
-    srcs = [os.path.join(VERIF, "contracts", s["spec"])] + [os.path.join(stage_dir, x) for x in s.get("link", [])]
+    srcs = [os.path.join(VERIF, "contracts", s["spec"])] + [os.path.join(stage_dir, "plain", x) for x in s.get("link", [])]
     a, b = os.path.join(wdir, "a.gb"), os.path.join(wdir, "b.gb")
     cmds = []
     cmd = ["goto-cc", "-I" + stage_dir, "-I" + os.path.join(VERIF, "contracts"), "-I" + os.path.join(VERIF, "models")] + defs + \
@@ -199,6 +199,26 @@ def run_set(s, stage_dir, tier):
         res["undecided"] = errs
         return res
     results = None
+    if s.get("unwind_all"):
+        # bounded sets: every loop left after instrumentation gets the same bound (never a global --unwind on a DFCC binary:
+        # the library loop write_set_check_assigns_clause_inclusion must not be touched)
+        k = s["unwind_all"][tier] if isinstance(s["unwind_all"], dict) else s["unwind_all"]
+        cmdl, rcl, outl, errl, dtl = run_cbmc(s, gb, wdir, tier, ["--show-loops"], 300)
+        names = []
+        try:
+            for o in json.loads(outl):
+                if isinstance(o, dict) and "loops" in o:
+                    names = [l["name"] for l in o["loops"]]
+        except Exception:
+            names = []
+        names = [n for n in names if not n.startswith("__CPROVER_contracts")]
+        if not names:
+            res["undecided"] = "could not list loops for unwind_all"
+            return res
+        s = dict(s)
+        uw = ["--unwindset", ",".join("%s:%d" % (n, k) for n in names), "--unwinding-assertions"]
+        s["cbmc"] = list(s.get("cbmc", [])) + uw
+        s["cbmc_thorough"] = list(s.get("cbmc_thorough", s.get("cbmc", []))) + uw if "cbmc_thorough" in s else s["cbmc"]
     if s.get("split"):
         # list properties, then run each one on its own (scheduled in parallel by the caller's pool size)
         cmd, rc, out, err, dt = run_cbmc(s, gb, wdir, tier, ["--show-properties"], 300)
@@ -351,7 +371,7 @@ def run_native(s, stage_dir, tier, res):
     res["params"] = params
     defs = ["-D%s=%s" % kv for kv in params.items()]
     exe = os.path.join(wdir, "native.exe")
-    srcs = [os.path.join(VERIF, s["spec"])] + [os.path.join(stage_dir, x) for x in s.get("link", [])]
+    srcs = [os.path.join(VERIF, s["spec"])] + [os.path.join(stage_dir, "plain", x) for x in s.get("link", [])]
     cc = s.get("cc", "clang")
     cmd = [cc, "-g", "-O1", "-fsanitize=address,undefined", "-fno-sanitize-recover=undefined", "-DVERIF_ERROR=yaep_error",
            "-D__CPROVER_assigns(...)=", "-D__CPROVER_loop_invariant(...)=", "-D__CPROVER_decreases(...)=",
